@@ -75,7 +75,7 @@ PROPS = {
     },
     'C11': {
         'level': 'proof',
-        'explanation': 'The uniqueness flags and the expect validation of inner_join / join / full_join are extracted by a mechanical statement slice (kept: the expect test and the two flag assignments; refused if they are not unconditional top-level assignments over `expect` only) and proved equal to the statement (complete 4x3 decision table plus rejection of every other string). That the flags are *used* correctly is proved for inner_join and join by the loop invariants of C09/C10 (the duplicate record after the index loop is non-empty iff some right key repeats, the left seen-set is exactly the set of processed left keys, so each raise happens iff the stated side repeats a key; arbitrary rows, one key column); full_join's use of the flags and multi-column keys are bounded (full decision table over all key multisets of size <=3).',
+        'explanation': 'The uniqueness flags and the expect validation of inner_join / join / full_join are extracted by a mechanical statement slice (kept: the expect test and the two flag assignments; refused if they are not unconditional top-level assignments over `expect` only) and proved equal to the statement (complete 4x3 decision table plus rejection of every other string). That the flags are *used* correctly is proved for inner_join and join by the loop invariants of C09/C10 (the duplicate record after the index loop is non-empty iff some right key repeats, the left seen-set is exactly the set of processed left keys, so each raise happens iff the stated side repeats a key; arbitrary rows, one key column); the use of the flags in full_join and multi-column keys are bounded (full decision table over all key multisets of size <=3).',
         'trusted': ['statement slice: everything except the expect test and the flag assignments is dropped in the flag obligations; the loop-invariant variants run the whole function text'],
     },
     'C12': {
